@@ -102,6 +102,18 @@ class JSONData(ABC):
         """
         return self._data
 
+    def __eq__(self, other):
+        """
+        Value comparison: two objects of the same class are equal if they carry
+        the same JSON data (regardless of formatting or key order)
+        """
+        if type(other) is not type(self):
+            return NotImplemented
+        return self.data == other.data
+
+    def __hash__(self):
+        return hash(json.dumps(self.data, sort_keys=True))
+
     def __str__(self):
         return str(self._data)
 
